@@ -123,6 +123,34 @@ def _sentinels() -> dict[str, Any]:
     return S
 
 
+def _x64_factories() -> dict[str, Any]:
+    """Programs that close over jnp arrays CREATED while x64 is enabled (float64 device arrays)."""
+    import jax.numpy as jnp
+    from jax import lax
+
+    def top():
+        c = jnp.asarray(np.array([0.1, 0.2, 0.3]))
+        return lambda x: x + c
+
+    def scalar():
+        c = jnp.float64(0.1)
+        return lambda x: x * c
+
+    def in_fori():
+        c = jnp.asarray(np.array([0.1, 0.2, 0.3]))
+        return lambda x: lax.fori_loop(0, 3, lambda i, v: v * c + 0.1, x)
+
+    def in_cond():
+        c = jnp.asarray(np.array([0.1, 0.2, 0.3]))
+        return lambda x: lax.cond(jnp.sum(x) > 0, lambda v: v + c, lambda v: v - c, x)
+
+    def int64_index():
+        idx = jnp.asarray(np.array([2, 0, 1]))
+        return lambda x: x[idx] * 2.0
+
+    return {"x64only_jnp64_array_top": top, "x64only_jnp64_scalar": scalar, "x64only_jnp64_array_in_fori": in_fori, "x64only_jnp64_array_in_cond": in_cond, "x64only_int64_index": int64_index}
+
+
 def _onnx_fn_sentinel():
     from vlib import fnmods
 
@@ -149,6 +177,8 @@ def enumerate_cases(tier: str, seed: int) -> list[dict[str, Any]]:
         if heavy:
             c["timeout"] = 900
         cases.append(c)
+    for name in _x64_factories():
+        cases.append({"key": f"sent:{name}@single_x64_preenabled", "src": "sentinel", "name": name, "mode": "single_x64_preenabled", "cost": 0.5})
     for name in list(_sentinels()) + ["onnx_function_body"]:
         for mode in ("single", "double", "single_x64_preenabled"):
             cases.append({"key": f"sent:{name}@{mode}", "src": "sentinel", "name": name, "mode": mode, "cost": 0.5})
@@ -314,6 +344,12 @@ def run_case(case: dict[str, Any], tier: str, seed: int) -> dict[str, Any]:
         if name == "onnx_function_body":
             fn_dec, fn_plain = _onnx_fn_sentinel()
             mk_export, mk_ref = (lambda: fn_dec), (lambda: fn_plain)
+        elif name.startswith("x64only_"):
+            import jax as _j0
+
+            _j0.config.update("jax_enable_x64", True)
+            f = _x64_factories()[name]()
+            mk_export = mk_ref = lambda: f
         else:
             f = _sentinels()[name]
             mk_export = mk_ref = lambda: f
